@@ -287,25 +287,14 @@ def d1_5(ctx):
         ctx.undecided(ckey(lx.key, "request-record-reads"), lx.node, f"only {n_reads} request-record reads found")
 
 
-@rule(P, "D1.6", "T-TT", floor=3)
+@rule(P, "D1.6", "T-WITNESS", floor=3)
 def d1_6(ctx):
-    """Bit extraction: integer bit = value & (1 << bit); BOOL array = slice [bit : bit + n] / index [bit]."""
-    fn = ctx.model.func(f"{LX}:LogixDriver.read")
-    f = fn.node
-    bits = [n for n in walk(f) if isinstance(n, ast.BinOp) and isinstance(n.op, ast.BitAnd) and attr_path(n.left) == "result.value"]
-    ok = len(bits) == 1 and isinstance(bits[0].right, ast.BinOp) and isinstance(bits[0].right.op, ast.LShift) and ctx.folder.eval(bits[0].right.left, fn.module) == 1 and atom_name(bits[0].right.right) == "bit" and isinstance(getattr(bits[0], "_parent", None), ast.Call) and call_name(bits[0]._parent) == "bool"
-    ctx.check(ok, ckey(fn, "int-bit"), bits[0] if bits else f, "bool(value & (1 << bit))", "integer bit extraction is not bool(value & (1 << bit))")
-    sl = [n for n in walk(f) if isinstance(n, ast.Subscript) and attr_path(n.value) == "result.value" and isinstance(n.slice, ast.Slice)]
-    ok = len(sl) == 1 and atom_name(sl[0].slice.lower) == "bit" and lin(sl[0].slice.upper) == Lin(0, {"bit": 1, "bool_elements": 1})
-    ctx.check(ok, ckey(fn, "bool-range"), sl[0] if sl else f, "BOOL range = value[bit : bit + bool_elements]", "BOOL-array range extraction is not value[bit : bit + bool_elements]")
-    ix = [n for n in walk(f) if isinstance(n, ast.Subscript) and attr_path(n.value) == "result.value" and not isinstance(n.slice, ast.Slice)]
-    ok = len(ix) == 1 and atom_name(ix[0].slice) == "bit"
-    ctx.check(ok, ckey(fn, "bool-index"), ix[0] if ix else f, "single BOOL = value[bit]", "single BOOL-array element is not value[bit]")
-    # selection between the two interpretations is by the tag's type name, and bit defaults to 0 for BOOL arrays
-    sel = [n for n in walk(f) if isinstance(n, ast.If) and isinstance(n.test, ast.Compare) and "data_type_name" in src(n.test) and ctx.folder.eval(n.test.comparators[0], fn.module) == "DWORD"]
-    ok = len(sel) == 1 and isinstance(sel[0].test.ops[0], ast.NotEq) and any(x is bits[0] for s in sel[0].body for x in walk(s)) if bits else False
-    dflt = any(isinstance(n, ast.Assign) and atom_name(n.targets[0]) == "bit" and isinstance(n.value, ast.BoolOp) and isinstance(n.value.op, ast.Or) and ctx.folder.eval(n.value.values[-1], fn.module) == 0 for n in walk(f))
-    ctx.check(ok and dflt, ckey(fn, "interpretation"), sel[0] if sel else f, "integer interpretation for non-DWORD tags, list interpretation (bit default 0) for BOOL arrays", "the choice between integer-bit and BOOL-array interpretation changed")
+    """Bit extraction: integer bit = value & (1 << bit); BOOL array = slice [bit : bit + n] / index [bit]; the interpretation
+    follows the tag's type.  Decided by folding `read` on witness replies (the obligations of D1.14): an earlier form of this
+    rule matched the expression shapes and raised an alarm on `(value >> bit) & 1`, which behaves the same."""
+    from .driver import d1_14
+
+    d1_14(ctx)
 
 
 @rule(P, "D1.7", "T-UNIT", floor=5)
